@@ -271,7 +271,7 @@ def main():
     global PROG
     tier = C.tier()
     rep = H.Report(PROP, tier)
-    N = 5 if tier == 'quick' else 6
+    N = 5 if tier == 'quick' else 7
     prog = PROG = c04.PROG = H.load_program(['canister'])
     btc.load_dep_decls(prog)
     rep.cov['bounds'] = dict(tree_blocks=N, difficulty='symbolic in [1, 2^100)', min_confirmations='absent, or symbolic u32 (0 included)',
